@@ -387,8 +387,21 @@ func runCheck(pd *propDef, tier string, seed int, verifDir, only string, workers
 		if rep.Truncated {
 			inconclusive = append(inconclusive, hd.Name+": exploration truncated (path cap or deadline)")
 		}
+		seenProblem := map[string]bool{}
 		for _, p := range rep.Problems {
-			inconclusive = append(inconclusive, fmt.Sprintf("%s: %s: %s [%s]", hd.Name, p.Kind, firstLine(p.Msg), p.Choices))
+			m := firstLine(p.Msg)
+			if len(m) > 300 {
+				m = m[:300] + "..."
+			}
+			key := p.Kind + m
+			if len(key) > 120 {
+				key = key[:120]
+			}
+			if seenProblem[key] {
+				continue
+			}
+			seenProblem[key] = true
+			inconclusive = append(inconclusive, fmt.Sprintf("%s: %s: %s [%s]", hd.Name, p.Kind, m, p.Choices))
 		}
 		// --- vacuity
 		opt := map[string]bool{}
